@@ -165,6 +165,26 @@ def analyse_method(run, pkg, K, m, attrs, ex):
     run.ob("R-ALG", fq, "rows", ok_idx, "one row per bin: index = range(maxbin)", f"index = {show(idx)[:80] if idx else None}",
            witness=None if ok_idx else "row count differs from bin count", loc=fi.loc(), sound=True)
 
+    # "like pair" decided by comparing particle NUMBERS: two different species with equal counts are then treated as one species
+    seen_cnt = set()
+    for e_ in it.events:
+        for v_ in e_.data.values():
+            if not isinstance(v_, tuple):
+                continue
+            for x in walk(v_):
+                if x[0] == "phi" and x[1][0] == "cmp" and x[1][1] in ("==", "!=") and x[1][2] != x[1][3]:
+                    a_, b_ = ex(x[1][2]), ex(x[1][3])
+                    cnt = lambda t: any(y[0] == "attr" and y[2] == "typecount" for y in walk(t)) or \
+                        any(y[0] == "elem" and y[2] == 1 and y[1][0] == "call" and y[1][1] == "numpy.unique" for y in walk(t))
+                    if cnt(x[1][2]) and cnt(x[1][3]) or (cnt(a_) and cnt(b_)):
+                        k_ = show(x[1])[:80]
+                        if k_ in seen_cnt:
+                            continue
+                        seen_cnt.add(k_)
+                        run.ob("R-SEL", fq, f"like-pair-by-count@{k_[:50]}", False, "whether a column is a like pair (factor 2) or a cross pair (factor 1) depends on the species, not on their particle numbers",
+                               f"the choice between {show(x[2])[:20]} and {show(x[3])[:20]} is made by {k_}",
+                               witness="an equimolar mixture (N_a = N_b for two different species a, b): the cross column g_ab gets the like-pair factor and is doubled",
+                               loc=loc_of(it, e_), sound=True)
     acc, post = {}, {}
     for ev in stores(it):
         tg = ev.data["target"]
